@@ -7,9 +7,9 @@ import (
 
 // FakeListener is a scripted net.Listener: connections are handed out on command.
 type FakeListener struct {
-	ch     chan net.Conn
-	closed chan struct{}
-	once   sync.Once
+	ch       chan net.Conn
+	closed   chan struct{}
+	once     sync.Once
 	OnAccept func(net.Conn)
 }
 
